@@ -4,6 +4,7 @@ real contexts, trace/outcome/closed compared inside Coq) + T (coalesce_exception
 regenerated from the source, Gen/Gen_coalesce.v)."""
 from __future__ import annotations
 
+import copy
 import itertools
 import json
 
@@ -28,7 +29,25 @@ def gen_exc(r, counter, allow_group=True):
     return {"leaf": counter[0], "is_exc": k < 0.7}
 
 
-def gen_cb(r, ids, excs, depth, parent_async, cancel):
+def gen_cbs(r, ids, excs, depth, parent_async, cancel, ending=None):
+    """one callback, possibly preceded by callbacks that the following @context_teardown generator registers itself
+    before it yields (they come first in registration order)"""
+    cb = gen_cb(r, ids, excs, depth, parent_async, cancel, ending)
+    out = []
+    if cb["route"] == "ctxtd" and r.random() < 0.4:
+        for _ in range(r.choice([1, 1, 2])):
+            p = {"id": next(ids), "route": r.choice(["method", "shortcut", "resource"]),
+                 "kind": r.choice(["sync", "async"]), "pass": r.random() < 0.5, "susp": 0, "raises": None, "adds": [],
+                 "inside_next": True}
+            if p["route"] == "resource":
+                p["pass"] = False
+            if p["kind"] == "async":
+                p["susp"] = r.choice([0, 1])
+            out.append(p)
+    return out + [cb]
+
+
+def gen_cb(r, ids, excs, depth, parent_async, cancel, ending=None):
     kind = r.choice(["sync", "sync", "async", "async", "awaitable"])
     routes = ["method", "method", "shortcut", "resource"]
     if parent_async:
@@ -49,9 +68,13 @@ def gen_cb(r, ids, excs, depth, parent_async, cancel):
             cb["susp"] = r.choice([0, 1, 1, 2])
         if r.random() < 0.35:
             cb["raises"] = gen_exc(r, excs)
+            if ending is not None and ending["k"] == "raise" and cb["pass"] and r.random() < 0.3:
+                # the callback re-raises the very exception it was handed
+                cb["raises"] = copy.deepcopy(ending["exc"])
+                cb["raises_same"] = True
     if depth < 3 and r.random() < (0.45 if depth == 0 else 0.3):
         for _ in range(r.choice([1, 1, 2])):
-            cb["adds"].append(gen_cb(r, ids, excs, depth + 1, cb["kind"] != "sync", cancel))
+            cb["adds"] += gen_cbs(r, ids, excs, depth + 1, cb["kind"] != "sync", cancel, ending)
     return cb
 
 
@@ -71,7 +94,7 @@ def gen_prog(r):
     cancel = ending["k"] == "cancel"
     cbs = []
     for _ in range(r.choice([0, 1, 2, 3, 3, 4, 5])):
-        cbs.append(gen_cb(r, ids, excs, 0, True, cancel))
+        cbs += gen_cbs(r, ids, excs, 0, True, cancel, ending)
         if count(cbs) >= 12:
             break
     return {"root": r.random() < 0.5, "outer_exc": r.random() < 0.25, "ending": ending, "cbs": cbs}
